@@ -75,7 +75,7 @@ func ProfileFor(prop string) Profile {
 		p.WAddRemove = 0
 		p.WMidSet = 85
 		p.PairWrites = 10
-	case "pardrop", "pardropfaults":
+	case "pardrop", "pardropfaults", "pardropmemo":
 		// outer nodes n2..n4 of height 1 read only through the right-hand side of a bind whose
 		// lhs-change node (n5) sits at the same height: writing n0 and the selector n1 before one
 		// pass puts a stale outer node and the bind that drops it into one height block, in either
@@ -101,6 +101,13 @@ func ProfileFor(prop string) Profile {
 		p.WAddRemove = 0
 		if prop == "pardropfaults" {
 			p.WFaultPass = 45
+		}
+		if prop == "pardropmemo" {
+			// the same block shape with a MEMOIZED bind: the dropped outer nodes belong to cached
+			// right-hand sides that come back into use when the selector returns to an earlier key
+			p.Prefix[5].K = "NewBindMemo"
+			p.Memo = 70
+			p.WPurge = 4
 		}
 	case "alwaysfaults":
 		// every history starts with an always node feeding a function node that is observed and
